@@ -9,12 +9,90 @@ chk = sys.modules["__main__"]
 def _mod():
     return sys.modules["__main__"]
 
+# ------------------------------------------------------------------ internal-stage drift detectors
+def stage_drift(ctx, res, lines, cfgs, label):
+    """pub-but-hidden stages (parse_number via the hook, try_fast_path, compute_float, compute_error,
+    Bellerophon mul/normalize, parse_mantissa, positive/negative_digit_comp, slow, rounding steps):
+    implementation == model on the same lines.  Never a verdict by itself: a difference is drift."""
+    n = 0
+    for c in cfgs:
+        if c not in ctx.cfgs:
+            continue
+        model = run_model(c, "release", lines)
+        for p in ctx.profiles:
+            impl = run_impl(c, p, lines)
+            for line, I, Mx in zip(lines, impl, model):
+                m, trap, sp = _mod().parse_model(Mx)
+                n += 1
+                if I.startswith("abort"):
+                    res.viol.append(("abort", dict(case=line[:500], cfg=c, profile=p, impl=I)))
+                elif I.startswith("unknown-command"):
+                    continue
+                elif I.startswith("panic"):
+                    if not (p == "dbg" and trap) and not m.startswith("panic"):
+                        res.drift.append(dict(case=line[:500], cfg=c, profile=p, impl=I, model=m[:200], note="stage " + label))
+                elif I != m:
+                    res.drift.append(dict(case=line[:500], cfg=c, profile=p, impl=I[:200], model=m[:200], note="stage " + label))
+    res.extra["stage_" + label] = res.extra.get("stage_" + label, 0) + n
+    res.evals += n
+
+def pf_to_stage_lines(cases, rng, limit):
+    """pn / fp / sci lines derived from pf cases"""
+    out = []
+    sel = cases if len(cases) <= limit else rng.sample(cases, limit)
+    for line, fam in sel:
+        t = line.split(" ## ")[0].split()
+        if t[0] != "pf":
+            continue
+        out.append("pn %s %s %s" % (t[2], t[3], t[4]))
+    return out
+
+def mp_to_stage_lines(cases, rng, limit, compact):
+    out = []
+    sel = cases if len(cases) <= limit else rng.sample(cases, limit)
+    for line, fam in sel:
+        t = line.split()
+        if t[0] != "mp":
+            continue
+        f, w, q, tr = t[1], int(t[2]), int(t[3]), t[4]
+        out.append("fp %s %d %d %s" % (f, w, q, tr))
+        if not compact:
+            out.append("cf %s %d %d" % (f, q, w))
+            if w != 0 and -342 <= q <= 308:
+                out.append("ce %s %d %d" % (f, q, w))
+        else:
+            out.append("belnorm %d %d" % (w, q % 100))
+            out.append("belmul %d %d %d %d" % (w | (1 << 63), q % 50, (w * 2654435761 % 2 ** 64) | (1 << 63), -(q % 70)))
+        out.append("sci %d %d" % (w, max(-2 ** 31 + 50, min(2 ** 31 - 50, q))))
+        out.append("u2f %s %d" % (f, w))
+    return out
+
+def slow_stage_lines(rng, f, n):
+    """positive/negative_digit_comp and slow on synthetic but well-formed arguments"""
+    out = []
+    F = gens.FMT[f]
+    for _ in range(n):
+        k = rng.choice([1, 1, 2, 3, 5, 12, 30, 40])
+        limbs = gens.rand_big(rng, k)
+        e = rng.choice([0, 1, 5, 27, 28, 100, 135, 136, 270, 300])
+        if k * 64 + e * 3.33 < 3800:
+            out.append("pdc %s %s %d" % (f, gens.ltok(limbs), e))
+        mant = rng.getrandbits(64) | (1 << 63)
+        bexp = rng.randint(-60, 2 ** F["ebits"] + F["mbits"] - 80)
+        ne = -rng.choice([1, 5, 20, 27, 28, 60, 135, 136, 300, 340, 760])
+        kk = rng.choice([1, 2, 5, 12, 30, 40])
+        out.append("ndc %s %s %d %d %d" % (f, gens.ltok(gens.rand_big(rng, kk)), mant, bexp, ne))
+    return out
+
 # ------------------------------------------------------------------ C01 / C02
 def run_C01(ctx, rng, tier, res, known):
     cases = _mod().cases_C01(rng, tier, "f64")
     _mod().check_pf("C01", cases, ctx.cfgs, ctx.profiles, res, known)
     core_crosscheck(cases, "f64", res)
     mp_monitor(ctx, rng, tier, "f64", res)
+    q = tier == "quick"
+    stage_drift(ctx, res, pf_to_stage_lines(cases, rng, 3000 if q else 40000), ("std", "std+compact"), "parse_number")
+    stage_drift(ctx, res, slow_stage_lines(rng, "f64", 300 if q else 5000), ("std", "std+alloc", "std+compact"), "digit_comp")
     return {}
 
 def run_C02(ctx, rng, tier, res, known):
@@ -24,6 +102,9 @@ def run_C02(ctx, rng, tier, res, known):
     _mod().check_pf("C02", cases, ctx.cfgs, ctx.profiles, res, known)
     core_crosscheck(cases, "f32", res)
     mp_monitor(ctx, rng, tier, "f32", res)
+    q = tier == "quick"
+    stage_drift(ctx, res, pf_to_stage_lines(cases, rng, 3000 if q else 40000), ("std", "std+compact"), "parse_number")
+    stage_drift(ctx, res, slow_stage_lines(rng, "f32", 300 if q else 5000), ("std", "std+alloc", "std+compact"), "digit_comp")
     return {}
 
 def double_rounding_cases(rng, n):
@@ -493,6 +574,8 @@ def run_C11(ctx, rng, tier, res, known):
         for c in cases:
             _mod().fam_count(res, c[1])
         check_mp(ctx, cases, f, res)
+        stage_drift(ctx, res, mp_to_stage_lines(cases, rng, 2500 if q else 40000, False), ("std",), "lemire")
+        stage_drift(ctx, res, mp_to_stage_lines(cases, rng, 2500 if q else 40000, True), ("std+compact",), "bellerophon")
     return {}
 
 # ------------------------------------------------------------------ C12
